@@ -11,7 +11,7 @@ ASSUMPTIONS = ['the expected conversion factor of each pair is computed by the p
                'a ranges over all f64 bit patterns in the structural / value-class / idempotence assertions; the scaling assertion ranges over a = ±2^k, |k| <= 200']
 
 def bounds(tier):
-    return {'pairs': 'quick: 8 fixed + 6 seeded ordered pairs of same-dimension units (with prefixes, one target with magnitude 45); thorough: every unit converted to two seeded same-dimension partners',
+    return {'pairs': 'quick: 8 fixed + 5 compound (products / quotients / powers with metric and binary prefixes) + 6 seeded ordered pairs of same-dimension units (with prefixes, one target with magnitude 45); thorough: every unit converted to two seeded same-dimension partners',
             'symbolic_inputs': 'a: all doubles; scaling: sign and exponent of a power of two'}
 
 def exhaustive(tier): return False
@@ -38,6 +38,25 @@ def cases(tier, rnd, units):
              ('degree', None, 'radian', None, None, None), ('poise', None, 'poise', ('M', -2), None, None)]
     for a, pa, b, pb, t, mid in fixed:
         if a in byname and b in byname: add(byname[a], pa, byname[b], pb, t, byname.get(mid) if mid else None)
+    # compound units on both sides (products / quotients / powers with metric and binary prefixes)
+    def fs(u, p, e):
+        sp = byname[u]['spec'] if p is None else common.with_prefix(byname[u]['spec'], *p)
+        t = sp.split(' '); t[8] = str(e); t[9] = '1'
+        return ' '.join(t[1:-1])
+    def compound(src, dst):
+        if any(n not in byname for n, _, _ in src + dst): return
+        s1 = '( ' + ' '.join(fs(*f) for f in src) + ' )'; s2 = '( ' + ' '.join(fs(*f) for f in dst) + ' )'
+        cfg = {0: s1, 1: s2}
+        e1 = common.exact_size(s1); e2 = common.exact_size(s2)
+        if e1 is not None and e2 is not None and e2 != 0:
+            try: cfg[3] = f64bits(float(e1 / e2))
+            except OverflowError: pass
+        out.append({'id': 'c%d' % len(out), 'label': 'compound %s -> %s' % (' '.join('%s^%d' % (common.label(byname[n], p), e) for n, p, e in src), ' '.join('%s^%d' % (common.label(byname[n], p), e) for n, p, e in dst)), 'cfg': cfg})
+    compound([('second', None, 1), ('byte', ('I', 10), -1)], [('second', None, 1), ('byte', None, -1)])
+    compound([('byte', ('I', 10), 2)], [('byte', None, 2)])
+    compound([('byte', ('M', 3), 1), ('bit', ('M', 6), -1)], [('byte', ('M', 6), 1), ('bit', ('M', 3), -1)])
+    compound([('metre', ('M', 3), 1), ('hour', None, -1)], [('metre', None, 1), ('second', None, -1)])
+    compound([('joule', None, 1), ('byte', ('I', 30), -1)], [('joule', ('M', 3), 1), ('byte', ('I', 20), -1)])
     multi = [v for v in g.values() if len(v) >= 2]
     for _ in range(6 if tier == 'quick' else 0):
         grp = rnd.choice(multi); u1, u2 = rnd.sample(grp, 2)
